@@ -56,6 +56,8 @@ def run(ctx):
             A, E = T.gen_pair(rng)
             if i % 8 == 0:
                 A = E[:]
+            elif i % 13 == 0:
+                A = []          # an empty actual result against a non-empty reference
             o = T.gen_opts(rng)
             sa, se = join_text(rng, A), join_text(rng, E)
             mode = rng.choice([1, 1, 2])
@@ -120,6 +122,8 @@ def run(ctx):
                         elif os.path.dirname(p) != tmp and p not in (refp, actp):
                             problems.append('message names unexpected file %s' % p)
                 raw = [p for p in pairs if p[0] in ('', 'raw')]
+                if pairs and not raw:
+                    problems.append('failure message names no comparison of the actual content with the reference: %r' % msg[:300])
                 if raw:
                     fa = raw[0][1]
                     if mode == 1:
